@@ -91,7 +91,7 @@ def main():
         result["checks"] = {}
         for c in checks:
             t0 = time.time()
-            rc, out = sh(f"./verif.sh {c} {tier}", cwd="/verif", env=dict(ENV, VERIF_REPO=mutated, VERIF_SEED=os.environ.get("VERIF_SEED", "1")), timeout=7200)
+            rc, out = sh(f"./verif.sh {c} {tier}", cwd=os.environ.get("VERIF_DIR", "/verif"), env=dict(ENV, VERIF_REPO=mutated, VERIF_SEED=os.environ.get("VERIF_SEED", "1")), timeout=7200)
             lines = [l for l in out.splitlines() if l.startswith("VIOLATION") or l.startswith("  [") or l.startswith("HARNESS-ERROR")]
             result["checks"][c] = {"exit": rc, "seconds": round(time.time() - t0, 1), "lines": lines[:6]}
         result["caught_by"] = [c for c, r in result["checks"].items() if r["exit"] == 1]
